@@ -137,6 +137,9 @@ _dispatch_data_destroy_buffer(const void* buffer, size_t size,
 		mach_vm_size_t vm_size = size;
 		mach_vm_address_t vm_addr = (uintptr_t)buffer;
 		mach_vm_deallocate(mach_task_self(), vm_addr, vm_size);
+#elif !defined(_WIN32)
+	} else if (destructor == DISPATCH_DATA_DESTRUCTOR_MUNMAP) {
+		munmap((void*)buffer, size);
 #else
 		(void)size;
 #endif
@@ -227,6 +230,8 @@ dispatch_data_create_f(const void *buffer, size_t size, dispatch_queue_t queue,
 			destructor != DISPATCH_DATA_DESTRUCTOR_NONE &&
 #if HAVE_MACH
 			destructor != DISPATCH_DATA_DESTRUCTOR_VM_DEALLOCATE &&
+#else
+			destructor != DISPATCH_DATA_DESTRUCTOR_MUNMAP &&
 #endif
 			destructor != DISPATCH_DATA_DESTRUCTOR_INLINE) {
 		destructor = ^{ destructor_function((void*)buffer); };
